@@ -552,3 +552,52 @@ func TestC03DescriptorLengths(t *testing.T) {
 		})
 	})
 }
+
+// TestC03ShortSections: sections whose section_length is too small for their table, for every table id the library
+// knows, with a checksum that verifies and with one that does not.
+func TestC03ShortSections(t *testing.T) {
+	rec := obs.NewRecorder("C03", "short_sections", "deterministic sweep: for each of 13 table ids on its PID (PMT after a PAT) x section_syntax_indicator 0/1 x EVERY section_length 0..24 x {CRC_32 of the bytes before it, wrong CRC_32} x three fill patterns x one or two such sections in the unit: NextData must not panic and must reach ErrNoMorePackets; distinct by construction")
+	defer rec.Flush()
+	total := int64(0)
+	for _, tb := range c03Tables {
+		for _, syntax := range []byte{0xb0, 0x30} {
+			for l := 0; l <= 24; l++ {
+				for _, goodCRC := range []bool{true, false} {
+					for _, fill := range []byte{0x00, 0xff, 0x5a} {
+						sec := []byte{tb.id, syntax | byte(l>>8), byte(l)}
+						for i := 0; i < l; i++ {
+							sec = append(sec, fill^byte(i*7))
+						}
+						if l >= 4 {
+							crc := ref.CRC32MPEG2(sec[:len(sec)-4])
+							if !goodCRC {
+								crc ^= 0x00010000
+							}
+							sec[len(sec)-4], sec[len(sec)-3], sec[len(sec)-2], sec[len(sec)-1] = byte(crc>>24), byte(crc>>16), byte(crc>>8), byte(crc)
+						}
+						for _, twice := range []bool{false, true} {
+							unit := [][]byte{sec}
+							if twice {
+								unit = append(unit, sec)
+							}
+							var pk []*ref.TSPacket
+							var c0, c1 uint8
+							if tb.pmt {
+								pat := (&ref.Section{TableID: 0, CurrentNext: true, PAT: &astits.PATData{Programs: []*astits.PATProgram{{ProgramNumber: 1, ProgramMapID: tb.pid}}}}).Encode()
+								pk = append(pk, ref.PacketizeUnit(0, ref.PSIUnit(0, 0, pat), &c0, ref.PktOpts{PadFF: true})...)
+							}
+							pk = append(pk, ref.PacketizeUnit(tb.pid, ref.PSIUnit(0, 0, unit...), &c1, ref.PktOpts{PadFF: true})...)
+							if v, _, _ := c03Drive(ref.EncodeAll(pk), c03Cfg{packetSize: 188}); v != "" {
+								t.Fatalf("table id %#x, section_length %d (syntax bits %#x, CRC valid %v, fill %#x, %d sections): %s", tb.id, l, syntax, goodCRC, fill, len(unit), v)
+							}
+							total++
+						}
+					}
+				}
+			}
+		}
+	}
+	rec.Enumerated(total)
+	rec.SetExhaustive(true)
+	rec.Sample(map[string]interface{}{"table_ids": len(c03Tables), "section_lengths": "0..24", "inputs": total})
+}
